@@ -36,15 +36,27 @@ pub fn scenario(sub: u64) -> Option<(String, u64)> {
     // 0 the client itself closes the connection while the callers are busy,
     // 1 EOF, 2 reset, 3 malformed data, 4 write error, 5 server close, 6 silence (h = 1 s),
     // 7 a frame the client must answer with a client exception
-    let fault = rng.range(0, 7);
+    // 8: a publisher is parked on a full mailbox behind a stalled, throttled transport when
+    //    the server closes the connection (reported as fault 5 with the parked flag)
+    let pick = rng.range(0, 8);
+    let parked = pick == 8;
+    let fault = if parked { 5 } else { pick };
+    // close() is already in flight (its Connection.Close is out, the server does not answer)
+    // when the failure lands
+    let close_first = !parked && [1u64, 2, 3, 5].contains(&fault) && rng.chance(1, 3);
     let nthreads = rng.range(1, 3) as usize;
     let delay_ms = rng.range(3, 60);
     // the connection is given up with drop instead of close in a quarter of the scenarios
-    let use_drop = fault != 0 && rng.chance(1, 4);
+    let use_drop = fault != 0 && !close_first && rng.chance(1, 4);
     let (stream, peer) = mock_pair();
-    let broker = Broker::start(peer.clone(), BrokerCfg { tune: (2047, 131072, if fault == 6 { 1 } else { 0 }), ..BrokerCfg::default() });
+    let broker = Broker::start(peer.clone(), BrokerCfg { tune: (2047, 131072, if fault == 6 { 1 } else { 0 }), answer_conn_close: !close_first, ..BrokerCfg::default() });
     let opts = ConnectionOptions::<Auth>::default().heartbeat(if fault == 6 { 1 } else { 0 });
-    let mut conn = with_deadline(move || Connection::insecure_open_stream(stream, opts, ConnectionTuning::default()), Duration::from_secs(5))?.ok()?;
+    let tuning = if parked {
+        ConnectionTuning::default().mem_channel_bound(1).buffered_writes_high_water(1024).buffered_writes_low_water(0)
+    } else {
+        ConnectionTuning::default()
+    };
+    let mut conn = with_deadline(move || Connection::insecure_open_stream(stream, opts, tuning), Duration::from_secs(5))?.ok()?;
     let _ = &mut conn;
     let cons_ch = conn.open_channel(None).ok()?;
     let consumer_rx = {
@@ -61,43 +73,104 @@ pub fn scenario(sub: u64) -> Option<(String, u64)> {
         let ch = conn.open_channel(None).ok()?;
         let fa = fault_at.clone();
         let mis = misrouted.clone();
-        handles.push(std::thread::spawn(move || -> (u64, bool, u64) {
-            // (calls that succeeded, ended with an error, ms from the fault to that error)
+        handles.push(std::thread::spawn(move || -> (u64, bool, u64, u16, Vec<String>) {
+            // (calls that succeeded, ended with an error, ms from the fault to that error,
+            //  channel, the queue names the calls returned)
+            let id = ch.channel_id();
             let mut ok = 0u64;
+            let mut names = Vec::new();
             loop {
-                let name = format!("q-{}-{}", k, ok);
+                // every other declare lets the server pick the name
+                let name = if ok % 2 == 1 { String::new() } else { format!("q-{}-{}", k, ok) };
                 match ch.queue_declare(name.clone(), QueueDeclareOptions::default()) {
                     Ok(q) => {
-                        // C04: the reply to this very call
-                        if q.name() != name {
+                        // C04: the reply to this very call (checked against the broker's log below)
+                        if !name.is_empty() && q.name() != name {
                             mis.store(true, Ordering::SeqCst);
                         }
+                        names.push(q.name().to_string());
                         std::mem::forget(q);
                         ok += 1;
                         if ok > 200_000 {
                             std::mem::forget(ch);
-                            return (ok, false, 0);
+                            return (ok, false, 0, id, names);
                         }
                     }
                     Err(_) => {
                         let now = t0.elapsed().as_millis() as u64;
                         let f = fa.load(Ordering::SeqCst);
                         std::mem::forget(ch);
-                        return (ok, true, if f == 0 { 0 } else { now.saturating_sub(f) });
+                        return (ok, true, if f == 0 { 0 } else { now.saturating_sub(f) }, id, names);
                     }
                 }
             }
         }));
     }
     std::thread::sleep(Duration::from_millis(delay_ms));
-    fault_at.store(t0.elapsed().as_millis().max(1) as u64, Ordering::SeqCst);
     let mut broker_opt = Some(broker);
-    let mut early_close = None;
     let mut conn_opt = Some(conn);
+    let mut stopped_log: Option<Vec<(u16, AMQPFrame)>> = None;
+    // the parked publisher: the transport takes nothing, the buffer goes over its mark, the
+    // 1-slot mailbox fills, the next publish blocks
+    let mut parked_handle = None;
+    if parked {
+        let ch = conn_opt.as_mut().unwrap().open_channel(None).ok()?;
+        peer.set_wpolicy(WPolicy::Stall);
+        let progress = Arc::new(AtomicU64::new(0));
+        let p2 = progress.clone();
+        parked_handle = Some(std::thread::spawn(move || -> u64 {
+            let body = vec![7u8; 300];
+            loop {
+                match ch.basic_publish("x", amiquip::Publish::new(&body, "rk")) {
+                    Ok(()) => {
+                        p2.fetch_add(1, Ordering::SeqCst);
+                    }
+                    Err(e) => {
+                        std::mem::forget(ch);
+                        return match e {
+                            Error::ServerClosedConnection { code: 320, .. } => 5,
+                            Error::EventLoopDropped => 2,
+                            _ => 8,
+                        };
+                    }
+                }
+            }
+        }));
+        // wait until it stands still
+        let mut last = (progress.load(Ordering::SeqCst), Instant::now());
+        let tw = Instant::now();
+        while tw.elapsed() < Duration::from_secs(5) {
+            std::thread::sleep(Duration::from_millis(20));
+            let p = progress.load(Ordering::SeqCst);
+            if p != last.0 {
+                last = (p, Instant::now());
+            } else if p > 0 && last.1.elapsed() > Duration::from_millis(300) {
+                break;
+            }
+        }
+    }
+    // close() first, where the scenario says so: wait until its Connection.Close is out
+    let mut early_close = None;
+    if close_first {
+        let c = conn_opt.take().unwrap();
+        let h = std::thread::spawn(move || c.close());
+        let tw = Instant::now();
+        while tw.elapsed() < Duration::from_secs(3) {
+            if let Some((frames, _)) = client_frames(&peer.out()) {
+                if frames.iter().any(|f| matches!(f, AMQPFrame::Method(0, AMQPClass::Connection(connection::AMQPMethod::Close(_))))) {
+                    break;
+                }
+            }
+            std::thread::sleep(Duration::from_millis(2));
+        }
+        early_close = Some(h);
+    }
+    fault_at.store(t0.elapsed().as_millis().max(1) as u64, Ordering::SeqCst);
+    let mut client_close = None;
     match fault {
         0 => {
             let c = conn_opt.take().unwrap();
-            early_close = Some(with_deadline(move || c.close(), Duration::from_secs(5)));
+            client_close = Some(with_deadline(move || c.close(), Duration::from_secs(5)));
         }
         1 => peer.push_episode(Episode::Eof),
         2 => peer.push_episode(Episode::Reset),
@@ -106,17 +179,20 @@ pub fn scenario(sub: u64) -> Option<(String, u64)> {
         5 => {
             // a server that closes sends nothing after its Close: the broker thread ends first
             if let Some(b) = broker_opt.take() {
-                let _ = b.stop();
+                stopped_log = Some(b.stop().replies);
             }
             peer.push_frames(&[AMQPFrame::Method(
             0,
             AMQPClass::Connection(connection::AMQPMethod::Close(connection::Close { reply_code: 320, reply_text: "forced".into(), class_id: 0, method_id: 0 })),
-            )])
+            )]);
+            if parked {
+                peer.set_wpolicy(WPolicy::All);
+            }
         }
         6 => {
             // the server falls silent: nobody answers any more
             if let Some(b) = broker_opt.take() {
-                let _ = b.stop();
+                stopped_log = Some(b.stop().replies);
             }
         }
         _ => peer.push_frames(&[AMQPFrame::Method(
@@ -126,9 +202,18 @@ pub fn scenario(sub: u64) -> Option<(String, u64)> {
     }
     // every caller must come back
     let bound = Duration::from_millis(if fault == 6 { 6000 } else { 3500 });
-    let joined = with_deadline(move || handles.into_iter().map(|h| h.join().unwrap_or((0, false, 0))).collect::<Vec<_>>(), bound + Duration::from_secs(2));
+    let joined = with_deadline(
+        move || {
+            let v = handles.into_iter().map(|h| h.join().unwrap_or((0, false, 0, 0, Vec::new()))).collect::<Vec<_>>();
+            let p = parked_handle.map(|h| h.join().unwrap_or(9));
+            (v, p)
+        },
+        bound + Duration::from_secs(2),
+    );
     let hang = joined.is_none();
-    let threads = joined.unwrap_or_default();
+    let (threads, parked_code) = joined.unwrap_or_default();
+    // 0: no parked publisher in this scenario; else what released it (5 = the server's close)
+    let parked_code = if parked { parked_code.unwrap_or(9) } else { 0 };
     // the consumer's queue ends
     let mut last_terminal = 0u64;
     let mut disconnected = false;
@@ -147,7 +232,7 @@ pub fn scenario(sub: u64) -> Option<(String, u64)> {
         }
     }
     std::mem::forget(cons_ch);
-    let closed = match (early_close, conn_opt.take()) {
+    let closed = match (client_close.or_else(|| early_close.map(|h| with_deadline(move || h.join().unwrap_or(Err(Error::FrameUnexpected)), Duration::from_secs(5)))), conn_opt.take()) {
         (Some(r), _) => r,
         (None, Some(conn)) if use_drop => with_deadline(move || drop(conn), Duration::from_secs(5)).map(|_| Err(Error::FrameUnexpected)),
         (None, Some(conn)) => with_deadline(move || conn.close(), Duration::from_secs(5)),
@@ -176,13 +261,27 @@ pub fn scenario(sub: u64) -> Option<(String, u64)> {
     }
     // the transport is released once close has returned
     let released = peer.wait(|s| s.dropped, Duration::from_secs(2));
-    if let Some(b) = broker_opt.take() {
-        let _ = b.stop();
+    let log_replies: Vec<(u16, AMQPFrame)> = match broker_opt.take() {
+        Some(b) => b.stop().replies,
+        None => stopped_log.take().unwrap_or_default(),
+    };
+    for (_, _, _, id, names) in &threads {
+        let sent: Vec<String> = log_replies
+            .iter()
+            .filter_map(|(ch, f)| match f {
+                AMQPFrame::Method(_, AMQPClass::Queue(amq_protocol::protocol::queue::AMQPMethod::DeclareOk(d))) if ch == id => Some(d.queue.clone()),
+                _ => None,
+            })
+            .collect();
+        // the i-th call returned the name of the i-th DeclareOk the broker sent on that channel
+        if names.len() > sent.len() || names.iter().zip(sent.iter()).any(|(a, b)| a != b) {
+            misrouted.store(true, Ordering::SeqCst);
+        }
     }
     let term = format!(
-        "({}, {}, {}, ({}, {}), {}, {}, {}, {}, {})",
+        "({}, {}, {}, ({}, {}), {}, {}, {}, {}, {}, ({}, {}))",
         fault,
-        coqfmt::list(&threads, |(ok, err, ms)| format!("({}, {}, {})", ok, coqfmt::b(*err), ms)),
+        coqfmt::list(&threads, |(ok, err, ms, _, _)| format!("({}, {}, {})", ok, coqfmt::b(*err), ms)),
         nthreads,
         last_terminal,
         coqfmt::b(disconnected),
@@ -190,7 +289,9 @@ pub fn scenario(sub: u64) -> Option<(String, u64)> {
         coqfmt::b(released),
         coqfmt::b(hang),
         coqfmt::b(misrouted.load(Ordering::SeqCst)),
-        coqfmt::b(wire_ok)
+        coqfmt::b(wire_ok),
+        coqfmt::b(close_first),
+        parked_code
     );
     Some((term, fault))
 }
@@ -208,6 +309,8 @@ pub fn run(a: &Args) {
         for h in hs {
             match h.join() {
                 Ok((s, Some((term, fault)))) => {
+                    if term.contains("(true, ") && term.ends_with("0))") { sink.count("close-in-flight"); }
+                    if !term.ends_with(", 0))") { sink.count("parked-publisher"); }
                     sink.count(["client-close", "eof", "reset", "malformed", "write-error", "server-close", "silence", "client-exception"][fault as usize]);
                     sink.push_line(term, true, format!("l2 {}", s));
                 }
